@@ -13,8 +13,8 @@ fn idx(p: Pool) -> usize { match p { Pool::Cache => 0, Pool::Query => 1, Pool::R
 fn eq5(a: &[usize; 5], b: &[usize; 5]) -> bool { a[0] == b[0] && a[1] == b[1] && a[2] == b[2] && a[3] == b[3] && a[4] == b[4] }
 fn used(b: &MemoryBudget) -> [usize; 5] { let s = b.stats(); [s.cache_used, s.query_used, s.recovery_used, s.schema_used, s.shared_used] }
 
-// @vt prop=C39 tier=quick bound="every sequential history of 3 operations (allocate or release, any of the 5 pools, any byte count up to 8 MiB) on a 4 MiB budget" outside="longer histories; concurrent schedules (c39_schedule_*)" timeout=900
-vt_proof! { unwind = 4; fn c39_sequential_history_3() {
+// @vt prop=C39 tier=quick bound="every sequential history of 3 operations (allocate or release, any of the 5 pools, any byte count up to 8 MiB) on a 4 MiB budget" outside="longer histories; concurrent schedules (c39_schedule_*)" timeout=1800
+vt_proof! { unwind = 7; fn c39_sequential_history_3() {
     let b = MemoryBudget::with_limit(4 * 1024 * 1024);
     let limit = b.total_limit();
     let mut ghost = [0usize; 5];
